@@ -18,7 +18,7 @@ SPEC = {
         ("_build_node_path(returned sequence = state keys of the back-tracked entries in order; unique removes exactly the immediate repetitions: loop invariant)", 'path_tail', r'(^tail:|^unique:|::inv-(init|preserved)::)'),
         ("_build_matching_path(back-tracking follows the stored predecessor links to a most probable predecessor; depth counts emitting entries; result reversed from the chosen entry: loop invariants)", 'backtrack', r'(^chain:|::inv-(init|preserved)::)')],
     'bounded': [
-        ('walk-in-the-graph', suites.case_C04, 1500, 25000, RULE + '; ' + 'non-trivial = best path visits at least two different states; histories of <= 4 operations', '')],
+        ('walk-in-the-graph', suites.case_C04, 1500, 200000, RULE + '; ' + 'non-trivial = best path visits at least two different states; histories of <= 4 operations', '')],
 }
 
 
